@@ -52,7 +52,7 @@ TraceReset ==
 SilentCaller ==
     /\ l <= TraceLen
     /\ \/ \E c \in Callers \cap called : RLookup(c) \/ RCheck(c) \/ RSend(c)
-       \/ \E k \in Cancellers \cap called : KLookup(k) \/ KSignal(k)
+       \/ \E k \in Cancellers \cap called : KList(k) \/ KLookup(k) \/ KSignal(k)
     /\ Silent
 
 SilentTimer == l <= TraceLen /\ phase \in {"near", "due"} /\ TimerExpire /\ Silent
@@ -76,9 +76,10 @@ TCall ==   \* RunJob / CancelJob is about to be called by thread th
 TRet ==    \* the call returned res
     /\ IsEvent("Ret") /\ Who \in called
     \* only success / refusal is compared: which refusal is returned is not part of C02
-    /\ \/ Who \in Callers /\ cpc[Who] = "done" /\ ((cres[Who] \in {"ok", "okb"}) <=> (Line.res = "ok"))
-       \/ Who \in Cancellers /\ kpc[Who] = "done" /\ ((kres[Who] \in {"ok", "okb", "won"}) <=> (Line.res = "ok"))
-    /\ Line.res \in {"ok", "refused"}
+    /\ \/ Who \in Callers /\ cpc[Who] = "done" /\ (Line.res = "none" \/ ((cres[Who] \in {"ok", "okb"}) <=> (Line.res = "ok")))
+       \/ Who \in Cancellers /\ kpc[Who] = "done" /\ (Line.res = "none" \/ ((kres[Who] \in {"ok", "okb", "won"}) <=> (Line.res = "ok")))
+    \* "none": RunJobIfExists / CancelJobIfExists / CancelJobs return nothing
+    /\ Line.res \in {"ok", "refused", "none"}
     /\ UNCHANGED vars /\ Keep
 
 TCtx ==    \* the parent context is about to be cancelled
